@@ -58,7 +58,7 @@ pub struct Found {
     pub replay: String,
 }
 
-fn spawn_worker(exe: &str, a: &RunArgs, k: usize, w: usize, resume: Option<(u64, u64)>, replay_dir: &str) -> (Child, std::sync::Arc<std::sync::Mutex<Vec<String>>>) {
+fn spawn_worker(exe: &str, profile: &str, a: &RunArgs, k: usize, w: usize, resume: Option<(u64, u64)>, replay_dir: &str) -> (Child, std::sync::Arc<std::sync::Mutex<Vec<String>>>) {
     let mut c = Command::new(exe);
     c.arg("worker")
         .arg(&a.prop)
@@ -76,6 +76,7 @@ fn spawn_worker(exe: &str, a: &RunArgs, k: usize, w: usize, resume: Option<(u64,
     if let Ok(j) = std::env::var("VERIF_ONLY_JOB") {
         c.arg("--only-job").arg(j);
     }
+    c.env("ASESIM_PROFILE", profile);
     c.stdin(Stdio::null()).stdout(Stdio::piped()).stderr(Stdio::piped());
     let mut child = c.spawn().expect("cannot spawn worker");
     let tail = std::sync::Arc::new(std::sync::Mutex::new(Vec::new()));
@@ -161,7 +162,7 @@ pub fn run_profile(a: &RunArgs, profile: &str, exe: &str, replay_dir: &str) -> P
         });
     };
     for k in 0..w {
-        let (mut child, tail) = spawn_worker(exe, a, k, w, None, replay_dir);
+        let (mut child, tail) = spawn_worker(exe, profile, a, k, w, None, replay_dir);
         start_reader(&mut child, k, tx.clone());
         ws.push(WState {
             child,
@@ -274,7 +275,7 @@ pub fn run_profile(a: &RunArgs, profile: &str, exe: &str, replay_dir: &str) -> P
                     continue;
                 }
                 // restart at the next run
-                let (mut child, tail) = spawn_worker(exe, a, k, w, Some((j, s + 1)), replay_dir);
+                let (mut child, tail) = spawn_worker(exe, profile, a, k, w, Some((j, s + 1)), replay_dir);
                 start_reader(&mut child, k, tx.clone());
                 ws[k].child = child;
                 ws[k].stderr_tail = tail;
